@@ -72,6 +72,7 @@ type RunResult struct {
 	Funcs       []string     `json:"funcs"`
 	Stubs       []string     `json:"stubs"`
 	Truncated   bool         `json:"truncated"`
+	Unwind      []string     `json:"unwind,omitempty"`
 	Unknowns    int          `json:"feasibility_unknowns"`
 	Observed    []string     `json:"observed,omitempty"`
 	Notes       []string     `json:"notes,omitempty"`
@@ -105,6 +106,7 @@ func main() {
 	maxPaths := flag.Int("maxpaths", 200000, "")
 	qtimeout := flag.Int("qtimeout", 60000, "per query timeout ms")
 	out := flag.String("out", "", "result json")
+	unwind := flag.Int("unwind", 256, "unwinding bound: decisions of one symbolic branch per function activation on one path")
 	wallLimit := flag.Int("walllimit", 0, "per run wall limit seconds (0 = none); hitting it marks the run truncated")
 	vec := flag.String("vector", "", "concrete vector json file: run harness concretely")
 	flag.IntVar(&optMaxNlz, "maxnlz", 2, "max leading zero bytes explored for big.Int.Bytes")
@@ -203,6 +205,7 @@ func main() {
 	output.LoadS = time.Since(t0).Seconds()
 
 	e := newEngine(prog)
+	e.unwindBound = *unwind
 	e.trace = *trace
 	e.solver = NewSolver(*solverBin, *qtimeout)
 	defer e.solver.Close()
@@ -339,6 +342,10 @@ func (e *Engine) runHarness(f *ssa.Function, label string, iargs []int64, maxPat
 		}
 	}
 	i0 := e.Instrs
+	e.pathDeadline = time.Time{}
+	if wall > 0 {
+		e.pathDeadline = t0.Add(wall + wall/4)
+	}
 	for {
 		e.Paths++
 		e.beginPath()
@@ -356,6 +363,10 @@ func (e *Engine) runHarness(f *ssa.Function, label string, iargs []int64, maxPat
 						outcome = "panic escaped harness: " + showVal(x.V)
 					case pathAbort:
 						outcome = "abort: " + x.why
+					case unwindAbort:
+						outcome = "unwind"
+						rr.Truncated = true
+						rr.Unwind = append(rr.Unwind, x.why)
 					default:
 						panic(r)
 					}
@@ -369,7 +380,7 @@ func (e *Engine) runHarness(f *ssa.Function, label string, iargs []int64, maxPat
 			fmt.Fprintf(os.Stderr, "path %s -> %q (last fn %s)\n", e.pathString(), outcome, e.curFn)
 		}
 		switch {
-		case outcome == "":
+		case outcome == "", outcome == "unwind":
 		case outcome == "infeasible":
 			e.Paths--
 			rr.Infeasible++
